@@ -23,17 +23,6 @@ def judge(ctx):
     return out
 
 
-def projection(ctx):
-    ok, why = E.model_ok(ctx)
-    if not ok:
-        return ok, why
-    m = ctx.m
-    if m.get("model") == "ok" and ctx.ok:
-        if m.get("proj_sites_equal") is False:
-            return False, "hook-site keys of the model output and of the implementation output differ"
-    return True, ""
-
-
 def nontrivial(ctx):
     return ctx.ok and (ctx.m.get("required_sites") or 0) > 0
 
